@@ -1,6 +1,132 @@
-//! C07 harnesses (see /verif/kani/README.md for conventions)
+//! C07 (bounded, heap): `BoxedUint::mul_mod_special` at 1 and 2 limbs (the boxed modular add / sub / neg / double / mul
+//! wrappers are proved deductively in units l8_boxed_*; this is a cheap cross-check of the special-modulus product on
+//! the real code). Operands are indices into tables of edge constants below p = 2^BITS - c, `c` is a concrete limb
+//! per call (1, 3, 2^32 + 1, MAX), the expected residue comes from rustc's constant evaluator (`u128` `%` at one limb;
+//! at two limbs the 256-bit product is folded with 2^128 = c (mod p) and then reduced by subtraction).
 use crate::*;
+use crate::util::*;
 use crypto_bigint::*;
 
+const M: u64 = u64::MAX;
+const H: u64 = 1 << 63;
+const fn w(hi: u64, lo: u64) -> u128 { ((hi as u128) << 64) | lo as u128 }
+
+const C: [u64; 4] = [1, 3, (1 << 32) + 1, M];
+/// one-limb operands (those >= p = 2^64 - c are skipped by the harness)
+const A1: [u64; 10] = [0, 1, 2, 0xffff_ffff, (1 << 32) + 1, H, H + 1, M - 3, M - 2, M - 1];
+/// two-limb operands
+const A2: [u128; 10] = [0, 1, M as u128, w(1, 0), w(1, 1), w(H, 0), w(M, 0), w(M, M - 3), w(M, M - 1), w(0x1234_5678_9abc_def0, 0x0fed_cba9_8765_4321)];
+
+const fn t1() -> [[[u64; 10]; 10]; 4] {
+    let mut t = [[[0u64; 10]; 10]; 4];
+    let mut k = 0;
+    while k < 4 {
+        let p = (1u128 << 64) - C[k] as u128;
+        let mut i = 0;
+        while i < 10 {
+            let mut j = 0;
+            while j < 10 { t[k][i][j] = ((A1[i] as u128 * A1[j] as u128) % p) as u64; j += 1; }
+            i += 1;
+        }
+        k += 1;
+    }
+    t
+}
+const T1: [[[u64; 10]; 10]; 4] = t1();
+
+/// a * b mod (2^128 - c) for a, b < 2^128: schoolbook product, then fold the high half with 2^128 = c (mod p)
+const fn mulmod2(a: u128, b: u128, c: u64) -> u128 {
+    let (a0, a1) = (a as u64 as u128, a >> 64);
+    let (b0, b1) = (b as u64 as u128, b >> 64);
+    let (p00, p01, p10, p11) = (a0 * b0, a0 * b1, a1 * b0, a1 * b1);
+    let c1 = (p00 >> 64) + (p01 as u64 as u128) + (p10 as u64 as u128);
+    let lo = (p00 as u64 as u128) | (c1 << 64);
+    let hi = (c1 >> 64) + (p01 >> 64) + (p10 >> 64) + p11; // exact: the product is < 2^256
+    // value = hi * 2^128 + lo = hi * c + lo (mod p); hi * c < 2^192: split again
+    let c = c as u128;
+    let (h0, h1) = (hi as u64 as u128, hi >> 64);
+    let m0 = h0 * c;            // < 2^128
+    let m1 = h1 * c;            // weight 2^64, < 2^128
+    // hi * c = m0 + m1 * 2^64 = (m1 >> 64) * 2^128 + ((m1 mod 2^64) << 64) + m0
+    let top = m1 >> 64;         // weight 2^128 -> fold again: top * c (< 2^128)
+    let mid = (m1 as u64 as u128) << 64;
+    let p = 0u128.wrapping_sub(c); // 2^128 - c
+    // sum lo + m0 + mid + top * c with carries folded (each carry out of 128 bits is worth c)
+    let mut acc = lo % p;
+    let terms = [m0 % p, mid % p, (top * c) % p];
+    let mut k = 0;
+    while k < 3 {
+        let (s, o) = acc.overflowing_add(terms[k]);
+        // acc, term < p: the true sum is < 2p; if it wrapped, true = s + 2^128 = s + c + p, so reduce to s + c
+        acc = if o { s + c } else if s >= p { s - p } else { s };
+        k += 1;
+    }
+    acc
+}
+const fn t2() -> [[[u128; 10]; 10]; 4] {
+    let mut t = [[[0u128; 10]; 10]; 4];
+    let mut k = 0;
+    while k < 4 {
+        let mut i = 0;
+        while i < 10 {
+            let mut j = 0;
+            while j < 10 { t[k][i][j] = mulmod2(A2[i], A2[j], C[k]); j += 1; }
+            i += 1;
+        }
+        k += 1;
+    }
+    t
+}
+const T2: [[[u128; 10]; 10]; 4] = t2();
+/// sanity anchors of the two-limb reference, checked by rustc: (p-1)^2 = 1 (mod p) for p = 2^128 - 1 and p = 2^128 - 3,
+/// 2^64 * 2^64 = 2^128 = c (mod p)
+const _: () = {
+    assert!(mulmod2(u128::MAX - 1, u128::MAX - 1, 1) == 1);
+    assert!(mulmod2(u128::MAX - 3, u128::MAX - 3, 3) == 1);
+    assert!(mulmod2(1 << 64, 1 << 64, 3) == 3);
+    assert!(mulmod2(1 << 64, 1 << 64, u64::MAX) == u64::MAX as u128);
+    assert!(mulmod2(u128::MAX - 3, 2, 3) == u128::MAX - 4);
+};
+
+fn case1<const K: usize>(i: usize, j: usize) {
+    let p = (1u128 << 64) - C[K] as u128;
+    if (A1[i] as u128) < p && (A1[j] as u128) < p {
+        let r = BoxedUint::from(A1[i]).mul_mod_special(&BoxedUint::from(A1[j]), Limb(C[K]));
+        assert!(r.nlimbs() == 1 && r.as_words()[0] == T1[K][i][j]);
+    }
+}
+fn case2<const K: usize>(i: usize, j: usize) {
+    let p = 0u128.wrapping_sub(C[K] as u128);
+    if A2[i] < p && A2[j] < p {
+        let r = BoxedUint::from(A2[i]).mul_mod_special(&BoxedUint::from(A2[j]), Limb(C[K]));
+        let v = T2[K][i][j];
+        assert!(r.nlimbs() == 2 && r.as_words()[0] == v as u64 && r.as_words()[1] == (v >> 64) as u64);
+    }
+}
+
 harnesses! {
+    /// mul_mod_special at one limb: a * b mod (2^64 - c), c in {1, 3, 2^32 + 1, MAX}, a, b table entries below p
+    #[kani::unwind(13)]
+    fn c07_boxed_mul_mod_special_1(s) {
+        let i = s.usize(); let j = s.usize();
+        s.assume(i < 10 && j < 10);
+        s.cover(A1[i] == M - 1 && A1[j] == M - 1);
+        case1::<0>(i, j); case1::<1>(i, j); case1::<2>(i, j); case1::<3>(i, j);
+    }
+    /// mul_mod_special at two limbs: a * b mod (2^128 - c), c in {1, 3}
+    #[kani::unwind(6)]
+    fn c07_boxed_mul_mod_special_2_c1_c3(s) {
+        let i = s.usize(); let j = s.usize();
+        s.assume(i < 10 && j < 10);
+        s.cover(A2[i] == w(M, M - 3) && A2[j] == w(M, M - 3));
+        case2::<0>(i, j); case2::<1>(i, j);
+    }
+    /// mul_mod_special at two limbs: a * b mod (2^128 - c), c in {2^32 + 1, MAX}
+    #[kani::unwind(6)]
+    fn c07_boxed_mul_mod_special_2_c32_cmax(s) {
+        let i = s.usize(); let j = s.usize();
+        s.assume(i < 10 && j < 10);
+        s.cover(A2[i] == w(M, M - 3) && A2[j] == w(M, 0));
+        case2::<2>(i, j); case2::<3>(i, j);
+    }
 }
